@@ -9,5 +9,5 @@ rm -f /verif/coq/extract/*.vo /verif/coq/extract/*.vok /verif/coq/extract/*.vos 
 cp walkdriver.ml driver.ml "$OUT/"
 cd "$OUT"
 ORDER=$(ocamlfind ocamldep -sort -I gen gen/*.mli gen/*.ml walkdriver.ml driver.ml)
-ocamlfind ocamlopt -O3 -w -a -I gen $ORDER -o waxmodel 2>/dev/null || ocamlfind ocamlopt -w -a -I gen $ORDER -o waxmodel
+ocamlfind ocamlopt -package unix -linkpkg -O3 -w -a -I gen $ORDER -o waxmodel 2>/dev/null || ocamlfind ocamlopt -package unix -linkpkg -w -a -I gen $ORDER -o waxmodel
 echo "built $OUT/waxmodel"
